@@ -26,8 +26,12 @@ Definition des_step (cz : cause) (k : Z) (nd nd' : node) : Prop :=
     (desired nd' c vt = desired nd c vt \/ desired nd' c vt = None) /\
     (cz <> CReport k c vt -> desired nd' c vt = desired nd c vt).
 
+(* the children dict is keyed by child.id *)
+Definition kids_ok (nd : node) : Prop := forall c ch, zassoc c (n_children nd) = Some ch -> c_id ch = c.
+
 Definition node_step (cz : cause) (k : Z) (nd nd' : node) : Prop :=
   n_id nd' = n_id nd /\
+  (kids_ok nd -> kids_ok nd') /\
   (sleeping nd = true -> sleeping nd' = true) /\
   (Forall (qentry k) (n_queue nd) -> Forall (qentry k) (n_queue nd')) /\
   (cz <> CWake k -> sleeping nd' = sleeping nd /\ exists ext, n_queue nd' = n_queue nd ++ ext) /\
@@ -41,7 +45,7 @@ Proof. intros H c vt _. split; [left; apply H|intros _; apply H]. Qed.
 
 Lemma node_step_refl cz k nd : node_step cz k nd nd.
 Proof.
-  split; [reflexivity|]. split; [auto|]. split; [auto|]. split; [|split].
+  split; [reflexivity|]. split; [auto|]. split; [auto|]. split; [auto|]. split; [|split].
   - intros _. split; [reflexivity|]. exists []. rewrite app_nil_r. reflexivity.
   - apply des_step_same. reflexivity.
   - intros c ch H. exists ch. auto.
@@ -49,8 +53,8 @@ Qed.
 
 Lemma node_step_trans cz k a b c : node_step cz k a b -> node_step cz k b c -> node_step cz k a c.
 Proof.
-  intros (I1 & S1 & Q1 & W1 & D1 & C1) (I2 & S2 & Q2 & W2 & D2 & C2).
-  split; [congruence|]. split; [auto|]. split; [auto|]. split; [|split].
+  intros (I1 & K1 & S1 & Q1 & W1 & D1 & C1) (I2 & K2 & S2 & Q2 & W2 & D2 & C2).
+  split; [congruence|]. split; [auto|]. split; [auto|]. split; [auto|]. split; [|split].
   - intro N. destruct (W1 N) as [E1 [x1 X1]]. destruct (W2 N) as [E2 [x2 X2]].
     split; [congruence|]. exists (x1 ++ x2). rewrite X2, X1, app_assoc. reflexivity.
   - intros ch vt N. destruct (D1 ch vt N) as [A1 B1]. destruct (D2 ch vt N) as [A2 B2]. split.
@@ -62,8 +66,8 @@ Qed.
 
 Lemma node_step_mono cz k a b : node_step CNone k a b -> node_step cz k a b.
 Proof.
-  intros (I1 & S1 & Q1 & W1 & D1 & C1).
-  split; [exact I1|]. split; [exact S1|]. split; [exact Q1|]. split; [|split; [|exact C1]].
+  intros (I1 & K1 & S1 & Q1 & W1 & D1 & C1).
+  split; [exact I1|]. split; [exact K1|]. split; [exact S1|]. split; [exact Q1|]. split; [|split; [|exact C1]].
   - intros _. apply W1. discriminate.
   - apply des_step_same. intros c vt. apply D1; discriminate.
 Qed.
@@ -73,8 +77,8 @@ Lemma node_step_same cz k nd nd' :
   n_id nd' = n_id nd -> n_new nd' = n_new nd -> n_queue nd' = n_queue nd -> n_children nd' = n_children nd ->
   node_step cz k nd nd'.
 Proof.
-  intros E1 E2 E3 E4. unfold node_step, sleeping. rewrite E1, E2, E3, E4.
-  split; [reflexivity|]. split; [auto|]. split; [auto|]. split; [|split].
+  intros E1 E2 E3 E4. unfold node_step, sleeping, kids_ok. rewrite E1, E2, E3, E4.
+  split; [reflexivity|]. split; [auto|]. split; [auto|]. split; [auto|]. split; [|split].
   - intros _. split; [reflexivity|]. exists []. rewrite app_nil_r. reflexivity.
   - apply des_step_same. intros c vt. unfold desired. rewrite E2. reflexivity.
   - intros c ch H. exists ch. auto.
@@ -140,7 +144,7 @@ Proof.
   intros C [A N] (m & E & H). exists m. split; [exact E|].
   destruct H as [H|[H|H]]; [left; unfold tab in *; rewrite <- C; exact H|right; left; exact H|].
   destruct (get_node g (m_node m)) as [nd|] eqn:G; [|right; right; exact I].
-  destruct (A _ _ G) as (nd' & G' & (_ & S & _)). rewrite G' in H.
+  destruct (A _ _ G) as (nd' & G' & (_ & _ & S & _)). rewrite G' in H.
   right. right. destruct (sleeping nd); [rewrite S in H by reflexivity; discriminate|reflexivity].
 Qed.
 
@@ -246,14 +250,14 @@ Qed.
 
 (* ---------------------------------------------------------------- node-level steps *)
 Lemma node_step_children cz k nd nd' :
-  n_id nd' = n_id nd -> n_new nd' = n_new nd -> n_queue nd' = n_queue nd ->
+  n_id nd' = n_id nd -> n_new nd' = n_new nd -> n_queue nd' = n_queue nd -> (kids_ok nd -> kids_ok nd') ->
   (forall c ch, zassoc c (n_children nd) = Some ch ->
      exists ch', zassoc c (n_children nd') = Some ch' /\ c_id ch' = c_id ch /\
                  forall vt, zhas vt (c_values ch) = true -> zhas vt (c_values ch') = true) ->
   node_step cz k nd nd'.
 Proof.
-  intros E1 E2 E3 C. unfold node_step, sleeping. rewrite E1, E2, E3.
-  split; [reflexivity|]. split; [auto|]. split; [auto|]. split; [|split; [|exact C]].
+  intros E1 E2 E3 KO C. unfold node_step, sleeping. rewrite E1, E2, E3.
+  split; [reflexivity|]. split; [exact KO|]. split; [auto|]. split; [auto|]. split; [|split; [|exact C]].
   - intros _. split; [reflexivity|]. exists []. rewrite app_nil_r. reflexivity.
   - apply des_step_same. intros c vt. unfold desired. rewrite E2. reflexivity.
 Qed.
@@ -269,7 +273,7 @@ Proof.
   assert (SL' : sleeping (with_new nd (zset c (zset vt x dv) (n_new nd))) = true).
   { rewrite sleeping_with_new. pose proof (zset_not_nil c (zset vt x dv) (n_new nd)) as NN.
     destruct (zset c (zset vt x dv) (n_new nd)); [contradiction|reflexivity]. }
-  split; [reflexivity|]. split; [auto|]. split; [auto|]. split; [|split].
+  split; [reflexivity|]. split; [auto|]. split; [auto|]. split; [auto|]. split; [|split].
   - intros _. split; [congruence|]. exists []. rewrite app_nil_r. reflexivity.
   - intros c' vt' N2. unfold desired. cbn [with_new n_new]. rewrite zassoc_zset.
     destruct (Z.eqb_spec c' c) as [->|NC]; [|split; [left; reflexivity|reflexivity]].
@@ -287,6 +291,8 @@ Proof.
   set (ch' := mkChild (c_id ch) (c_type ch) (c_desc ch) (zset vt (PS p) (c_values ch))).
   assert (S1 : node_step (CReport k c vt) k nd (with_children nd (zset c ch' (n_children nd)))).
   { apply node_step_children; try reflexivity.
+    { intros KO c0 ch0. cbn [with_children n_children]. rewrite zassoc_zset.
+      destruct (Z.eqb_spec c0 c) as [->|N]; [|apply KO]. intro H. inversion H. unfold ch'. cbn [c_id]. exact (KO _ _ CH). }
     intros c0 ch0 H. cbn [with_children n_children]. rewrite zassoc_zset.
     destruct (Z.eqb_spec c0 c) as [->|N]; [|exists ch0; auto].
     exists ch'. split; [reflexivity|]. rewrite CH in H. inversion H; subst ch0. split; [reflexivity|].
@@ -320,7 +326,7 @@ Section Handlers.
         * split; [|discriminate]. cbn [fst].
           apply (trans_put_node CNone g (m_node m) nd); [exact G|exact (node_id_of g _ _ I G)|].
           unfold node_step. cbn [n_id n_queue n_children]. unfold sleeping. cbn [n_new].
-          split; [reflexivity|]. split; [auto|]. split; [|split; [|split; [apply des_step_same; reflexivity|]]].
+          split; [reflexivity|]. split; [auto|]. split; [auto|]. split; [|split; [|split; [apply des_step_same; reflexivity|]]].
           -- intro F. apply Forall_app. split; [exact F|]. constructor; [|constructor].
              exists m. split; reflexivity.
           -- intros _. split; [reflexivity|]. eexists. reflexivity.
@@ -385,6 +391,10 @@ Section Handlers.
       apply htrans_ret. eapply trans_trans; [|apply trans_alert].
       apply (trans_put_node _ g (m_node m) nd); [exact G|exact (node_id_of g _ _ I G)|].
       apply node_step_children; try reflexivity.
+      { intros KO c ch. cbn [with_children n_children]. rewrite zassoc_app.
+        destruct (zassoc c (n_children nd)) as [ch0|] eqn:Z0; [intro H; inversion H; subst; exact (KO _ _ Z0)|].
+        cbn [zassoc]. destruct (Z.eqb_spec c (m_child m)) as [->|N]; [|discriminate].
+        intro H. inversion H. reflexivity. }
       intros c ch H. cbn [with_children n_children]. rewrite zassoc_app, H. exists ch. auto.
   Qed.
 
@@ -485,7 +495,8 @@ Section Handlers.
   Lemma woken_step k nd : node_step (CWake k) k nd (woken nd).
   Proof.
     unfold node_step, woken. cbn [with_queue n_id n_queue n_children].
-    split; [reflexivity|]. split; [|split; [intros _; constructor|split; [intro N; contradiction N; reflexivity|split]]].
+    split; [reflexivity|]. split; [auto|].
+    split; [|split; [intros _; constructor|split; [intro N; contradiction N; reflexivity|split]]].
     - change (sleeping (with_queue (init_smart_sleep nd) [])) with (sleeping (init_smart_sleep nd)).
       rewrite init_sleeping. intro S. rewrite S. destruct (n_children nd); reflexivity.
     - apply des_step_same. intros c vt.
@@ -677,9 +688,19 @@ Section Handlers.
   Lemma nodes_step_QInv cz g g' : nodes_step cz g g' -> QInv g -> QInv g'.
   Proof.
     intros [A N] Q k nd' G'. destruct (get_node g k) as [nd|] eqn:G.
-    - destruct (A _ _ G) as (nd2 & G2 & (_ & _ & QQ & _)). rewrite G' in G2. inversion G2; subst nd2.
+    - destruct (A _ _ G) as (nd2 & G2 & (_ & _ & _ & QQ & _)). rewrite G' in G2. inversion G2; subst nd2.
       apply QQ. exact (Q _ _ G).
-    - destruct (N _ _ G G') as (_ & _ & QQ & _). apply QQ. constructor.
+    - destruct (N _ _ G G') as (_ & _ & _ & QQ & _). apply QQ. constructor.
+  Qed.
+
+  Definition CInv (g : gw) : Prop := forall k nd, get_node g k = Some nd -> kids_ok nd.
+
+  Lemma nodes_step_CInv cz g g' : nodes_step cz g g' -> CInv g -> CInv g'.
+  Proof.
+    intros [A N] Q k nd' G'. destruct (get_node g k) as [nd|] eqn:G.
+    - destruct (A _ _ G) as (nd2 & G2 & (_ & KK & _)). rewrite G' in G2. inversion G2; subst nd2.
+      apply KK. exact (Q _ _ G).
+    - destruct (N _ _ G G') as (_ & KK & _). apply KK. intros c ch H. discriminate H.
   Qed.
 
   (* ---- controller calls ---- *)
@@ -846,22 +867,27 @@ Section Handlers.
   (* ---- every reachable state ---- *)
   Lemma QInv_init cf : QInv (gw_init cf).
   Proof. intros k nd H. discriminate H. Qed.
+  Lemma CInv_init cf : CInv (gw_init cf).
+  Proof. intros k nd H. discriminate H. Qed.
 
-  Lemma run_sleep_inv ops : forall g, cfg_ok (g_cf g) -> Inv orc g -> QInv g -> Forall op_ok ops ->
-    Inv orc (run orc clock g ops) /\ QInv (run orc clock g ops) /\ g_cf (run orc clock g ops) = g_cf g.
+  Lemma run_sleep_inv ops : forall g, cfg_ok (g_cf g) -> Inv orc g -> QInv g -> CInv g -> Forall op_ok ops ->
+    Inv orc (run orc clock g ops) /\ QInv (run orc clock g ops) /\ CInv (run orc clock g ops) /\
+    g_cf (run orc clock g ops) = g_cf g.
   Proof.
-    induction ops as [|o ops IH]; intros g C I Q F; [auto|].
+    induction ops as [|o ops IH]; intros g C I Q K F; [auto|].
     inversion F as [|? ? O F']; subst.
     destruct (step_ok orc clock g o C I O) as [I1 C1].
     pose proof (step_strans g o C I Q O) as ST.
     pose proof (nodes_step_QInv _ _ _ (s_nodes _ _ _ ST) Q) as Q1.
+    pose proof (nodes_step_CInv _ _ _ (s_nodes _ _ _ ST) K) as K1.
     unfold run. simpl. fold (run orc clock (step orc clock g o) ops).
-    destruct (IH (step orc clock g o)) as (I2 & Q2 & C2); try assumption; [rewrite C1; exact C|].
-    split; [exact I2|]. split; [exact Q2|congruence].
+    destruct (IH (step orc clock g o)) as (I2 & Q2 & K2 & C2); try assumption; [rewrite C1; exact C|].
+    split; [exact I2|]. split; [exact Q2|]. split; [exact K2|congruence].
   Qed.
 
   Theorem reachable_sleep_inv cf ops : cfg_ok cf -> Forall op_ok ops ->
-    let g := run orc clock (gw_init cf) ops in Inv orc g /\ QInv g /\ g_cf g = cf.
-  Proof. intros C F. exact (run_sleep_inv ops (gw_init cf) C (Inv_init orc cf) (QInv_init cf) F). Qed.
-
+    let g := run orc clock (gw_init cf) ops in Inv orc g /\ QInv g /\ CInv g /\ g_cf g = cf.
+  Proof.
+    intros C F. exact (run_sleep_inv ops (gw_init cf) C (Inv_init orc cf) (QInv_init cf) (CInv_init cf) F).
+  Qed.
 End Handlers.
